@@ -430,6 +430,16 @@ func (w *World) auditLocked() {
 	}
 }
 
+// AuditNoLocks emits `audit nolocks <startTS>` for every transaction of the client (C02/C03: after recovery no lock of the
+// crashed / faulted client's transactions may remain).
+func (w *World) AuditNoLocks(c *Client) {
+	w.rec.mu.Lock()
+	defer w.rec.mu.Unlock()
+	for _, t := range c.txns {
+		w.emitLocked(fmt.Sprintf("audit nolocks %d", t.startTS))
+	}
+}
+
 // Hang reports a hung scenario: the event line `hang <what>` carries `FAIL hang` on the implementation side.
 func (w *World) Hang(what string) {
 	w.rec.mu.Lock()
